@@ -7,7 +7,7 @@
    the window after an empty own transaction — and refuted inside that window (known finding F8). *)
 From Coq Require Import List NArith Lia. Import ListNotations.
 From LS Require Import Base.Bytes Base.Res Header.Model Merge.Model Merge.Version Merge.Proofs
-  Strategy.Model Shadow.Model Instance.Model Instance.SyncLoop Instance.Ids Instance.IdsProofs Instance.StepShapes Instance.ReceiveOnly.
+  Strategy.Model Shadow.Model Instance.Model Instance.SyncLoop Instance.Ids Instance.IdsProofs Instance.StepShapes Instance.ReceiveOnly Instance.LoopSim.
 Open Scope N_scope.
 
 (* (2) shadow mode: whenever a load transaction runs (it ends with shadowToMain), every application commit of
@@ -35,6 +35,16 @@ Proof.
     + apply nw_other; [eapply s_store_ok; reflexivity|reflexivity].
   - cbn. repeat split; try reflexivity. intros a [<-|[]]. lia.
 Qed.
+
+(* ... and with FORCED periodic snapshots (storage_force_snapshot_interval) allowed at every idle point: a pass
+   that uploads although the loop saw no local change still captures first (SendOnce's transaction always does) *)
+Theorem C03_partial_forced : forall l s,
+  reach (step_nw_f true) (init l) s -> at_ s = Top ->
+  let T := last s + 1 in
+  let lc := synced s <? T - 1 in
+  forall a, In a (apps s) -> a <= (if lc then last s else cap s).
+Proof. exact (fun l s => captured_before_projection_f true l s eq_refl). Qed.
+Print Assumptions C03_partial_forced.
 
 (* the invariant behind it, for both modes: what counts as synced has been captured and published *)
 Theorem C03_inv : forall shadow l s, reach (step_nw shadow) (init l) s -> inv shadow s.
@@ -108,3 +118,34 @@ Theorem C03_step_send_once : forall c s s' id,
 Proof. exact send_once_shape. Qed.
 Print Assumptions C03_step_load_once.
 Print Assumptions C03_step_send_once.
+
+(* ---- the ORDER of the steps too: the executable loop machine REFINES the abstract system ----
+   Every complete pass of the machine's outer loop (the yield at the top, any number of LoadOnce calls with the
+   loop's bookkeeping after each, the upload check, SendOnce with failing and succeeding Store calls, the idle
+   sleep — with the application commits the schedule places at every yield point) is a sequence of steps of the
+   abstract system between two Top states that carry the machine's LastTxnID and lastSyncedTxnID. So the states the
+   replayed machine is in between two passes are reachable states of the system C03_inv / C10's cause invariant
+   speak about (instance not receive-only: the abstract system has no such mode). *)
+Theorem C03_loop_pass_refines : forall c, i_receive_only c = false ->
+  forall fuel has_data s a s',
+  R s a -> at_ a = Top -> loop_iter fuel c has_data s = (s', true) ->
+  exists a', steps c a a' /\ at_ a' = Top /\ R s' a'.
+Proof. exact loop_iter_sim. Qed.
+Print Assumptions C03_loop_pass_refines.
+
+Theorem C03_machine_states_are_reachable : forall c, i_receive_only c = false ->
+  forall has_data s s',
+  l_synced s = 0 -> passes c has_data s s' ->
+  exists a', reach (step (negb (i_native c))) (init (e_last (l_env s))) a' /\ at_ a' = Top /\
+             last a' = e_last (l_env s') /\ synced a' = l_synced s'.
+Proof. exact machine_states_are_reachable. Qed.
+Print Assumptions C03_machine_states_are_reachable.
+
+(* non-vacuity: a concrete pass of the machine (native mode, one stored entry, nothing synced yet): it uploads once
+   and goes on; by C03_loop_pass_refines it is a path of the abstract system *)
+Definition ex_cfg := mkICfg true true false false false [].
+Definition ex_env := mkEnv [([97], mkDbi 0 [([107], [0;0;0;0;0;0;0;5; 0;0;0;0;0;0;0;1; 0;0;0;0;0;0;0;0; 118])])] 1.
+Definition ex_s := init_state ex_env [[];[];[];[];[];[];[];[];[];[];[];[]] 1000.
+Example C03_pass_example :
+  exists s', loop_iter 10 ex_cfg true ex_s = (s', true) /\ l_synced ex_s = 0 /\ l_synced s' = 1 /\ length (l_stores s') = 1%nat.
+Proof. eexists. split; [vm_compute; reflexivity|]. vm_compute. repeat split. Qed.
